@@ -100,6 +100,16 @@ impl NodeP {
         } else {
             cmd.env("RNACOS_RAFT_AUTO_INIT", "false").env("RNACOS_RAFT_JOIN_ADDR", format!("127.0.0.1:{}", base + 1000));
         }
+        // debugging aid: VERIF_CLUSTER_LOG=<dir> keeps every node's log output in <dir>/node<id>.log
+        if let Ok(d) = std::env::var("VERIF_CLUSTER_LOG") {
+            let open = || std::fs::OpenOptions::new().create(true).append(true).open(format!("{}/node{}.log", d, self.id));
+            if let (Ok(o), Ok(e)) = (open(), open()) {
+                cmd.env("RUST_LOG", "info");
+                self.child = cmd.stdin(Stdio::null()).stdout(Stdio::from(o)).stderr(Stdio::from(e)).spawn().ok();
+                self.stopped = false;
+                return;
+            }
+        }
         self.child = cmd.stdin(Stdio::null()).stdout(Stdio::null()).stderr(Stdio::null()).spawn().ok();
         self.stopped = false;
     }
